@@ -16,6 +16,7 @@ S_ponder == <<"goponder", "ponderhit", "stop", "quit">>
 S_b2b == <<"goinf", "go", "quit">>
 S_opts == <<"go", "setopt", "isready", "go", "quit">>
 S_live == <<"goinf", "stop", "go", "quit">>
+DefectOn == TRUE
 Termination == <>[]Terminated
 EachGoAnswered == <>[](\A s \in 1..sid : out[s] = 1)
 =============================================================================
